@@ -96,19 +96,31 @@ func execOp(c *Ctx, line string) (out string) {
 		d4, e4 := date.DefaultParser(namedBytes(append([]byte(nil), in...)), r)
 		o1 := dateOutcome(d1, e1)
 		for i, o := range []string{dateOutcome(d2, e2), dateOutcome(d3, e3), dateOutcome(d4, e4)} {
-			if o != o1 || errText([]error{e2, e3, e4}[i]) != errText(e1) {
+			if c.Owns("C17.date.types") && (o != o1 || errText([]error{e2, e3, e4}[i]) != errText(e1)) {
 				c.Fail("C17.date.types", line, "string: %s %q; variant %d: %s %q", o1, errText(e1), i, o, errText([]error{e2, e3, e4}[i]))
 				return "MISMATCH-input-types " + o1 + " / " + o
 			}
 		}
 		if e1 != nil {
-			if typed, _ := datePE(e1); !typed {
+			if typed, _ := datePE(e1); c.Owns("C09.typed") && (!typed) {
 				c.Fail("C09.typed", line, "error %T is not *date.ParseError", e1)
 				return "UNTYPED " + o1
 			}
-			if !d1.IsZero() {
+			if c.Owns("C09.zero") && (!d1.IsZero()) {
 				c.Fail("C09.zero", line, "value %v next to error", d1)
 				return "NONZERO " + o1
+			}
+		}
+		if r == 0 && c.Owns("C09.entry") { // every input path: UnmarshalText is the parser under the default rule
+			var u date.Date
+			eu := u.UnmarshalText(append([]byte(nil), in...))
+			typed := true
+			if eu != nil {
+				typed, _ = datePE(eu)
+			}
+			if ou := dateOutcome(u, eu); ou != o1 || !typed {
+				c.Fail("C09.entry", line, "UnmarshalText: %s (typed %v), DefaultParser: %s", ou, typed, o1)
+				return "MISMATCH-entry " + o1 + " / " + ou
 			}
 		}
 		return o1
@@ -117,7 +129,7 @@ func execOp(c *Ctx, line string) (out string) {
 		in := mustHex(f[1])
 		err := d.UnmarshalBinary(in)
 		if err != nil {
-			if !d.Equal(date.New(1999, 9, 9)) {
+			if c.Owns("C17.date.unbin.recv") && (!d.Equal(date.New(1999, 9, 9))) {
 				c.Fail("C17.date.unbin.recv", line, "receiver changed to %v on error", d)
 				return "RECEIVER-CHANGED"
 			}
@@ -205,19 +217,31 @@ func execOp(c *Ctx, line string) (out string) {
 		n4, e4 := roman.DefaultParser(namedBytes(append([]byte(nil), in...)), r)
 		o1 := romanOutcome(n1, e1)
 		for i, o := range []string{romanOutcome(n2, e2), romanOutcome(n3, e3), romanOutcome(n4, e4)} {
-			if o != o1 || errText([]error{e2, e3, e4}[i]) != errText(e1) {
+			if c.Owns("C17.roman.types") && (o != o1 || errText([]error{e2, e3, e4}[i]) != errText(e1)) {
 				c.Fail("C17.roman.types", line, "string: %s %q; variant %d: %s %q", o1, errText(e1), i, o, errText([]error{e2, e3, e4}[i]))
 				return "MISMATCH-input-types " + o1 + " / " + o
 			}
 		}
 		if e1 != nil {
-			if typed, _ := romanPE(e1); !typed {
+			if typed, _ := romanPE(e1); c.Owns("C10.typed") && (!typed) {
 				c.Fail("C10.typed", line, "error %T is not *roman.NumberFormatError", e1)
 				return "UNTYPED " + o1
 			}
-			if n1 != 0 {
+			if c.Owns("C10.zero") && (n1 != 0) {
 				c.Fail("C10.zero", line, "value %d next to error", n1)
 				return "NONZERO " + o1
+			}
+		}
+		if r == 0 && c.Owns("C10.entry") {
+			var u roman.Number
+			eu := u.UnmarshalText(append([]byte(nil), in...))
+			typed := true
+			if eu != nil {
+				typed, _ = romanPE(eu)
+			}
+			if ou := romanOutcome(u, eu); ou != o1 || !typed {
+				c.Fail("C10.entry", line, "UnmarshalText: %s (typed %v), DefaultParser: %s", ou, typed, o1)
+				return "MISMATCH-entry " + o1 + " / " + ou
 			}
 		}
 		return o1
@@ -229,7 +253,7 @@ func execOp(c *Ctx, line string) (out string) {
 		r := roman.Rule(atoi(f[2]))
 		e1 := roman.Valid(string(in), r)
 		e2 := roman.Valid(append([]byte(nil), in...), r)
-		if errText(e1) != errText(e2) {
+		if c.Owns("C17.roman.valid.types") && (errText(e1) != errText(e2)) {
 			c.Fail("C17.roman.valid.types", line, "%q vs %q", errText(e1), errText(e2))
 			return "MISMATCH-input-types"
 		}
@@ -256,25 +280,37 @@ func execOp(c *Ctx, line string) (out string) {
 		for i := range buf2 {
 			buf2[i], buf4[i] = 0xAA, 0x55
 		}
-		if semOutcome(v2, e2) != before2 || semOutcome(v4, e4) != before4 {
+		if c.Owns("C17.sem.retain") && (semOutcome(v2, e2) != before2 || semOutcome(v4, e4) != before4) {
 			c.Fail("C17.sem.retain", line, "value parsed from []byte changed after the buffer was overwritten: %s -> %s", before2, semOutcome(v2, e2))
 			return "RETAINS-INPUT " + before2
 		}
 		o1 := semOutcome(v1, e1)
 		for i, o := range []string{before2, semOutcome(v3, e3), before4} {
-			if o != o1 || []string{t2, t3, t4}[i] != errText(e1) {
+			if c.Owns("C17.sem.types") && (o != o1 || []string{t2, t3, t4}[i] != errText(e1)) {
 				c.Fail("C17.sem.types", line, "string: %s %q; variant %d: %s %q", o1, errText(e1), i, o, []string{t2, t3, t4}[i])
 				return "MISMATCH-input-types " + o1 + " / " + o
 			}
 		}
 		if e1 != nil {
-			if typed, _ := semPE(e1); !typed {
+			if typed, _ := semPE(e1); c.Owns("C03.typed") && (!typed) {
 				c.Fail("C03.typed", line, "error %T is not *sem.ParseError", e1)
 				return "UNTYPED " + o1
 			}
-			if v1 != (sem.Ver{}) {
+			if c.Owns("C03.zero") && (v1 != (sem.Ver{})) {
 				c.Fail("C03.zero", line, "value %v next to error", v1)
 				return "NONZERO " + o1
+			}
+		}
+		if f[1] == "Default" && c.Owns("C03.entry") {
+			var u sem.Ver
+			eu := u.UnmarshalText(append([]byte(nil), in...))
+			typed := true
+			if eu != nil {
+				typed, _ = semPE(eu)
+			}
+			if ou := semOutcome(u, eu); ou != o1 || !typed {
+				c.Fail("C03.entry", line, "UnmarshalText: %s (typed %v), DefaultParser: %s", ou, typed, o1)
+				return "MISMATCH-entry " + o1 + " / " + ou
 			}
 		}
 		return o1
@@ -304,7 +340,7 @@ func execOp(c *Ctx, line string) (out string) {
 		r1 := sem.DefaultComparePreRelease(string(a), string(b))
 		r2 := sem.DefaultComparePreRelease(a, b)
 		r3 := sem.DefaultComparePreRelease(string(a), b)
-		if r1 != r2 || r1 != r3 {
+		if c.Owns("C17.sem.cmppre.types") && (r1 != r2 || r1 != r3) {
 			c.Fail("C17.sem.cmppre.types", line, "%d %d %d", r1, r2, r3)
 			return "MISMATCH-input-types"
 		}
@@ -333,7 +369,7 @@ func execOp(c *Ctx, line string) (out string) {
 		default:
 			return "bad-op"
 		}
-		if r1 != r2 || errText(e1) != errText(e2) {
+		if c.Owns("C17.sem.cmpstr.types") && (r1 != r2 || errText(e1) != errText(e2)) {
 			c.Fail("C17.sem.cmpstr.types", line, "%d %q vs %d %q", r1, errText(e1), r2, errText(e2))
 			return "MISMATCH-input-types"
 		}
@@ -372,12 +408,12 @@ func execOp(c *Ctx, line string) (out string) {
 			for i := range b {
 				b[i] = 0xAA
 			}
-			if semVal(v2) != keep {
+			if c.Owns("C17.sem.retain") && (semVal(v2) != keep) {
 				c.Fail("C17.sem.retain", line, "Latest* result changed after the input buffers were overwritten: %s -> %s", keep, semVal(v2))
 				return "RETAINS-INPUT " + keep
 			}
 		}
-		if v1 != v2 || errText(e1) != errText(e2) {
+		if c.Owns("C17.sem.latest.types") && (v1 != v2 || errText(e1) != errText(e2)) {
 			c.Fail("C17.sem.latest.types", line, "%v %q vs %v %q", v1, errText(e1), v2, errText(e2))
 			return "MISMATCH-input-types"
 		}
@@ -444,19 +480,43 @@ func execOp(c *Ctx, line string) (out string) {
 		s4, e4 := size.DefaultParser(namedBytes(append([]byte(nil), in...)), r)
 		out1 := sizeOutcome(s1, e1)
 		for i, o := range []string{sizeOutcome(s2, e2), sizeOutcome(s3, e3), sizeOutcome(s4, e4)} {
-			if o != out1 || errText([]error{e2, e3, e4}[i]) != errText(e1) {
+			if c.Owns("C17.size.types") && (o != out1 || errText([]error{e2, e3, e4}[i]) != errText(e1)) {
 				c.Fail("C17.size.types", line, "string: %s %q; variant %d: %s %q", out1, errText(e1), i, o, errText([]error{e2, e3, e4}[i]))
 				return "MISMATCH-input-types " + out1 + " / " + o
 			}
 		}
 		if e1 != nil {
-			if typed, _ := sizePE(e1); !typed {
+			if typed, _ := sizePE(e1); c.Owns("C12.typed") && (!typed) {
 				c.Fail("C12.typed", line, "error %T is not *size.ParseError", e1)
 				return "UNTYPED " + out1
 			}
-			if s1 != 0 {
+			if c.Owns("C12.zero") && (s1 != 0) {
 				c.Fail("C12.zero", line, "value %d next to error", s1)
 				return "NONZERO " + out1
+			}
+		}
+		if r == size.DefaultRule&size.RuleDisableUnit && c.Owns("C08.entry") {
+			var u size.Size
+			eu := u.UnmarshalText(append([]byte(nil), in...))
+			typed := true
+			if eu != nil {
+				typed, _ = sizePE(eu)
+			}
+			if ou := sizeOutcome(u, eu); ou != out1 || !typed {
+				c.Fail("C08.entry", line, "UnmarshalText: %s (typed %v), DefaultParser: %s", ou, typed, out1)
+				return "MISMATCH-entry " + out1 + " / " + ou
+			}
+		}
+		if r == size.DefaultRule && c.Owns("C12.entry") {
+			var u size.Size
+			eu := u.UnmarshalJSON(append([]byte(nil), in...))
+			typed := true
+			if eu != nil {
+				typed, _ = sizePE(eu)
+			}
+			if ou := sizeOutcome(u, eu); ou != out1 || !typed {
+				c.Fail("C12.entry", line, "UnmarshalJSON: %s (typed %v), DefaultParser: %s", ou, typed, out1)
+				return "MISMATCH-entry " + out1 + " / " + ou
 			}
 		}
 		return out1
@@ -486,19 +546,31 @@ func execOp(c *Ctx, line string) (out string) {
 		i4, e4 := uu.DefaultParser(namedBytes(append([]byte(nil), in...)), r)
 		o1 := uuOutcome(i1, e1)
 		for i, o := range []string{uuOutcome(i2, e2), uuOutcome(i3, e3), uuOutcome(i4, e4)} {
-			if o != o1 || errText([]error{e2, e3, e4}[i]) != errText(e1) {
+			if c.Owns("C17.uu.types") && (o != o1 || errText([]error{e2, e3, e4}[i]) != errText(e1)) {
 				c.Fail("C17.uu.types", line, "string: %s %q; variant %d: %s %q", o1, errText(e1), i, o, errText([]error{e2, e3, e4}[i]))
 				return "MISMATCH-input-types " + o1 + " / " + o
 			}
 		}
 		if e1 != nil {
-			if typed, _ := uuPE(e1); !typed {
+			if typed, _ := uuPE(e1); c.Owns("C05.typed") && (!typed) {
 				c.Fail("C05.typed", line, "error %T is not *uu.ParseError", e1)
 				return "UNTYPED " + o1
 			}
-			if i1 != (uu.ID{}) {
+			if c.Owns("C05.zero") && (i1 != (uu.ID{})) {
 				c.Fail("C05.zero", line, "value %v next to error", i1)
 				return "NONZERO " + o1
+			}
+		}
+		if r == 0 && c.Owns("C05.entry") {
+			var u uu.ID
+			eu := u.UnmarshalText(append([]byte(nil), in...))
+			typed := true
+			if eu != nil {
+				typed, _ = uuPE(eu)
+			}
+			if ou := uuOutcome(u, eu); ou != o1 || !typed {
+				c.Fail("C05.entry", line, "UnmarshalText: %s (typed %v), DefaultParser: %s", ou, typed, o1)
+				return "MISMATCH-entry " + o1 + " / " + ou
 			}
 		}
 		return o1
